@@ -11,15 +11,17 @@ import subprocess, os
 from vlib import runner
 ID = "C02"
 MODULE = "PotasscoVerif.Props.C02"
-EXTRA_MODULES = ["PotasscoVerif.Props.C02sem", "PotasscoVerif.Lemmas.AspEnum"]
+EXTRA_MODULES = ["PotasscoVerif.Props.C02sem", "PotasscoVerif.Lemmas.AspEnum", "PotasscoVerif.Props.C02x", "PotasscoVerif.Lemmas.ConvertExt"]
 THEOREMS = ["PotasscoVerif.C02.C02_stable_models", "PotasscoVerif.C02.C02_equivalence", "PotasscoVerif.C02.C02_cost", "PotasscoVerif.C02.C02_compute_false",
             "PotasscoVerif.Asp.translation_stable", "PotasscoVerif.Asp.translation_stable_back", "PotasscoVerif.Asp.stableB_iff", "PotasscoVerif.Asp.stableModels_complete", "PotasscoVerif.Asp.stableModels_sound",
             "PotasscoVerif.C02.C02_map_injective", "PotasscoVerif.C02.C02_map_stable", "PotasscoVerif.C02.C02_aux_fresh", "PotasscoVerif.C02.convert_steps",
-            "PotasscoVerif.C02.C02_minimize_flip", "PotasscoVerif.C02.C02_minimize_sorted", "PotasscoVerif.C02.flushMinimize_order"]
-PARTIAL = {"C02_equivalence across several steps / externals with the extension": "C02_stable_models / C02_equivalence / C02_cost are proved for one program step of rules (all head kinds, normal and weight bodies), "
-           "minimize, output, external and edge directives (an edge counts as asking to show its helper name `_edge(s,t)`), the externals compiled away (conversion without the clasp extension; with it, for steps without externals); how external() calls passed on with the "
-           "extension behave, and the answer sets of several incremental steps taken together, are decided by the brute-force answer-set oracle on the implementation's output and by "
-           "model == implementation; across steps only the atom map is proved (C02_map_stable, C02_aux_fresh)"}
+            "PotasscoVerif.C02.C02_minimize_flip", "PotasscoVerif.C02.C02_minimize_sorted", "PotasscoVerif.C02.flushMinimize_order",
+            "PotasscoVerif.C02.C02_externals_passed", "PotasscoVerif.C02.C02_stable_models_ext", "PotasscoVerif.C02.C02_equivalence_ext", "PotasscoVerif.C02.C02_cost_ext",
+            "PotasscoVerif.C02.extRules_out", "PotasscoVerif.C02.flushExternal_specT"]
+PARTIAL = {"C02_equivalence across several steps": "C02_stable_models / C02_equivalence / C02_cost (externals compiled away) and C02_stable_models_ext / C02_equivalence_ext / C02_cost_ext / C02_externals_passed "
+           "(externals passed on with the clasp extension) are proved for one program step of rules (all head kinds, normal and weight bodies), minimize, output, external and edge directives "
+           "(an edge counts as asking to show its helper name `_edge(s,t)`); the answer sets of several incremental steps taken together are decided by the brute-force answer-set oracle on the "
+           "implementation's output and by model == implementation; across steps only the atom map is proved (C02_map_stable, C02_aux_fresh)"}
 BSIZES = (4096,)
 LPCONVERT = True
 RULE = ("programs of 1..8 directives over 2..6 atoms: disjunctive/choice heads incl. empty, normal and weight bodies (bounds < 0, 0, reachable, unreachable; weights 0/1/mixed), "
@@ -36,8 +38,12 @@ LEVEL_TEXT = ("Reference semantics Spec/Asp.lean (stable models with disjunctive
               "Externals (Lemmas/ConvertFlags.lean): a tracker of heads / registered externals / last values follows the model's flags, and the rules emitted at the end of the step are the renamed rules of the declarative reading `progOf` (an external on an atom no rule defines: fact, choice or nothing; the last directive counts). C02_stable_models / C02_equivalence: restriction to the mapped atoms and the extension E by the auxiliary atoms are mutually inverse bijections between the answer sets of the given and of the emitted rules "
               "(false atom false = the emitted compute statement, C02_compute_false), and corresponding answer sets show exactly the same symbol names. C02_cost: per priority the emitted cost is the given cost minus "
               "the constant sum of negative weights. For EVERY call sequence: C02_map_injective, C02_map_stable, C02_aux_fresh (via convert_steps), C02_minimize_flip, C02_minimize_sorted + flushMinimize_order "
-              "(one statement per priority, ascending). Externals and multi-step semantics: brute-force oracle on the implementation + model == implementation.")
-LEVEL_NOTE = ("Proof of the single-step equivalence (answer sets, shown names, cost, externals compiled away); partial for multi-step and for externals passed on with the extension + correspondence (~4k quick / 100k thorough programs × ext on/off, sample through lpconvert) + answer-set oracle on small programs. Trusted: Lean kernel+axioms, "
+              "(one statement per priority, ascending). "
+              "Externals passed on with the clasp extension (Lemmas/ConvertExt.lean, Props/C02x.lean): C02_externals_passed — the external calls of the emitted step are exactly the pending externals (atoms declared external while no rule "
+              "had defined them, in order), each as (image, LAST value declared); extRules_out — read like the given ones (`progOf`), they denote the renamed rules of the given externals (an image heads an emitted rule iff its atom heads a given "
+              "rule); C02_stable_models_ext / C02_equivalence_ext / C02_cost_ext: answer sets, shown names and costs correspond as above for EVERY step with ANY external directives converted with the extension on. "
+              "Multi-step semantics: brute-force oracle on the implementation + model == implementation.")
+LEVEL_NOTE = ("Proof of the single-step equivalence (answer sets, shown names, cost; externals compiled away AND passed on with the extension); partial for multi-step + correspondence (~4k quick / 100k thorough programs × ext on/off, sample through lpconvert) + answer-set oracle on small programs. Trusted: Lean kernel+axioms, "
               "asp_sem.py, harness, generator in props/c02.py. D9 (INT_MIN minimize weight) repaired.")
 
 I32 = 2**31 - 1
